@@ -367,12 +367,12 @@ package jsonpatch
 
 //@ func deepCopy
 //@   requires options: options != nil
-//@   requires src: childOK(src)
+//@   requires src: src == nil || (nodeOK(src) && (src.which == eAry ==> src.ary != nil))
 //@   modifies nothing
 //@   ensures[C01] nil: src == nil ==> result.0 == nil && result.1 == 0 && result.2 == nil
 //@   ensures[C01,C09] fresh-copy: src != nil && result.2 == nil ==> result.0 != nil && fresh(result.0) && result.0.which == eRaw && result.0.doc == nil && result.0.ary == nil && result.0.raw != nil && fresh(result.0.raw) && fresh(*result.0.raw) && wf(*result.0.raw) && nows(*result.0.raw)
 //@   ensures[C12] size: src != nil && result.2 == nil ==> result.1 == len(*result.0.raw) && result.1 >= 0
-//@   ensures[C01,C12] spelled-as-output: src != nil && src.which == eRaw && result.2 == nil ==> bytes(*result.0.raw) == spell(val(*src.raw), options.EscapeHTML) && val(*result.0.raw) == val(*src.raw)
+//@   ensures[C01,C12] spelled-as-output: src != nil && src.which == eRaw && src.raw != nil && result.2 == nil ==> bytes(*result.0.raw) == spell(val(*src.raw), options.EscapeHTML) && val(*result.0.raw) == val(*src.raw)
 //@   ensures[C04,C12] size-bound: 0 <= result.1 && result.1 <= 72057594037927936
 //@   ensures[C08] attrs: !isTestFailed(result.2) && !isMissing(result.2) && !isCopyLimit(result.2) && !isInvalidIndex(result.2)
 //@   ensures[C01] nil-on-error: result.2 != nil ==> result.0 == nil
